@@ -7,6 +7,27 @@ TB = ('Trusted base: rustc MIR construction and layout; tools/mirfacts exporter;
       '(intervals x known-bits, self-tested against Python integers); reference tables in gbsa/. ')
 
 CHECKS = {
+ 'C01': dict(
+    technique='per-opcode abstract interpretation of Emitter::encode_op (template sequence + emitted bytes) vs interpreter summaries',
+    text='Decides, for all 500 defined encodings and both outcomes of conditional forms, agreement between the '
+         'composition layer of the emitter and the interpreter: PC effect, status class, bus accesses (kind, address, '
+         'value, order; helper byte order derived from the helper bodies; helper identity taken from the embedded '
+         'function address), host stack discipline, host branch displacement and polarity, register-file layout vs '
+         'prologue/epilogue displacements, exhaustiveness; and checks the necessary conditions that written guest '
+         'registers and per-bit flag effect classes agree. It does NOT interpret the x86-64 bytes inside the emit_* '
+         'templates, so value-level equality of translated data operations is not decided.',
+    note=TB + 'Template effect table in gbsa/emitmodel.py (fails closed on unknown templates). x86 semantics of template '
+         'bytes are outside this check.',
+    ref='DESIGN.md#c01'),
+ 'C05': dict(
+    technique='per-opcode abstract interpretation of run_op: decode table, bit provenance of F, interval/known-bit bounds',
+    text='Decides for all 500 defined encodings: decoder output equals the x/y/z reference (variant, registers, '
+         'immediates, bit masks); register pairs stay within 16 bits and the low nibble of F stays zero at every exit. '
+         'Necessary conditions checked: per-bit flag effect classes equal the SM83 flag column, written registers / '
+         'sources are the architectural ones (pure moves bit-exact), carry and half-carry decisions depend on every '
+         'operand bit they must depend on. Value-level arithmetic (e.g. the DAA table) is not decided.',
+    note=TB + 'Entry invariant (16-bit pairs, F low nibble zero) is the invariant rules 4/5 re-establish.',
+    ref='DESIGN.md#c05'),
  'C02': dict(
     technique='per-opcode abstract interpretation of interpreter and emitter; cycle-constant agreement per outcome',
     text='Decides, for each of the 500 defined encodings and both outcomes of the 16 conditional forms (516 cases), '
